@@ -1470,6 +1470,13 @@ def replay(case, rec):
                 A = B
             else:
                 mp.LU_decomp(A)
+                # the recorded kind of mutation after the factors were stored
+                if 'setitem' in since:
+                    A[0, 0] = A[0, 0] + 1
+                if 'slice' in since:
+                    A[0, :] = A[0, :] * 2
+                if 'swap_row' in since and A.rows > 1:
+                    mp.swap_row(A, 0, 1)
             mp.prec = c['prec']
             probe = {'k': 'mat', 'content': mat_content(A), 'op': c['op'], 'p': c['prec'], 'rhs': c.get('rhs')}
             rhs = None
